@@ -175,3 +175,59 @@ def op_battery(state: State, a: Dict[str, Any], env: simenv.SimEnv) -> Any:
 def simenv_error(msg: str) -> Exception:
     from .simpool import SimHarnessError
     return SimHarnessError(msg)
+
+
+# -- call-graph histories (C13, C16) ------------------------------------------------------------
+def _stack_frame(state: State, rank: int) -> Dict[str, Any]:
+    from .canon import frame_rows
+    from .session import LOADER_COLS, STACK_COLS
+    t = state.trace
+    df = t.get_trace(rank)
+    sym = list(t.symbol_table.get_sym_table())
+    return {"rows": frame_rows(df, LOADER_COLS + STACK_COLS, sym),
+            "dtypes": {c: str(df[c].dtype) for c in STACK_COLS if c in df.columns}}
+
+
+@op("callgraph")
+def op_callgraph(state: State, a: Dict[str, Any], env: simenv.SimEnv) -> Any:
+    from hta.common.trace_call_graph import CallGraph
+    ranks = a.get("ranks")
+    cg = CallGraph(state.trace, ranks=ranks)
+    state.misc["cg"] = cg
+    out: Dict[str, Any] = {"ranks": {}, "built_ranks": [int(r) for r in cg.ranks]}
+    for r in cg.ranks:
+        out["ranks"][str(int(r))] = _stack_frame(state, int(r))
+    mp = cg.mapping
+    out["mapping"] = [[canon_value(x) for x in row] for row in mp[["rank", "pid", "tid", "label", "stack_root"]].values.tolist()]
+    return out
+
+
+@op("freq_seq")
+def op_freq_seq(state: State, a: Dict[str, Any], env: simenv.SimEnv) -> Any:
+    od = os.path.join(state.world_dir, a.get("out", "seq_out"))
+    os.makedirs(od, exist_ok=True)
+    rank = int(a.get("rank", 0))
+    df = state.ta.get_frequent_cuda_kernel_sequences(
+        operator_name=a["operator"], output_dir=od, min_pattern_len=int(a.get("min_len", 3)), rank=rank,
+        top_k=int(a.get("top_k", 5)), visualize=False, compress_other_kernels=bool(a.get("compress", True)))
+    rows = []
+    if df is not None and len(df):
+        for rec in df.to_dict("records"):
+            rows.append({str(k): canon_value(v) for k, v in rec.items()})
+    out = {"rows": rows, "columns": [str(c) for c in (df.columns if df is not None else [])]}
+    if rank in state.trace.traces:
+        out["frame"] = _stack_frame(state, rank)
+    return out
+
+
+@op("annotate_kernels")
+def op_annotate_kernels(state: State, a: Dict[str, Any], env: simenv.SimEnv) -> Any:
+    df = state.ta.get_gpu_kernels_with_user_annotations(int(a["rank"]), expand_names=bool(a.get("expand", True)),
+                                                        shortern_names=bool(a.get("short", True)))
+    return {"n": None if df is None else int(len(df))}
+
+
+@op("decode_ids")
+def op_decode_ids(state: State, a: Dict[str, Any], env: simenv.SimEnv) -> Any:
+    state.trace.decode_symbol_ids(use_shorten_name=bool(a.get("short", True)))
+    return {}
